@@ -247,6 +247,14 @@ func TestC03Synth(t *testing.T) {
 	code := a.link()
 	if side == "after" {
 		phOff, fnOff = 2048, 1024
+	} else if strings.HasPrefix(side, "small:") {
+		// a far placeholder of only L bytes: the relocated prefix plus its jump back fits exactly, barely, or not at all
+		n, _ := strconv.Atoi(side[6:])
+		phLen = n
+		if n < 8 || n > 200 {
+			rep.Inconclusive = "bad placement " + side
+			return
+		}
 	} else if strings.HasPrefix(side, "before:") {
 		n, _ := strconv.Atoi(side[7:])
 		phLen, phOff = 72, fnOff-n
@@ -266,6 +274,10 @@ func TestC03Synth(t *testing.T) {
 			return
 		}
 	}
+	// goom's extent scanner counts the padding behind a function (up to the next function's first byte) as part of
+	// it; no function owns those bytes, so a trampoline may reach into them: the placeholder's extent is its NOPs,
+	// its RET and the 8 padding bytes in front of the next function (the fingerprint written below)
+	phExtent := phLen + 9
 	for i := 0; i < phLen; i++ {
 		mem[phOff+i] = 0x90
 	}
@@ -337,7 +349,7 @@ func TestC03Synth(t *testing.T) {
 	}
 	// nothing but the placeholder may have been written so far
 	for i := range mem {
-		if mem[i] != before[i] && (i < phOff || i >= phOff+phLen+1) {
+		if mem[i] != before[i] && (i < phOff || i >= phOff+phExtent) {
 			rep.Violate("C03/bytes-outside-placeholder-changed", fmt.Sprintf("synthetic shape %q: byte at mapping offset %d changed before Apply", sh.name, i), c)
 			break
 		}
@@ -360,7 +372,7 @@ func TestC03Synth(t *testing.T) {
 	}
 	g.UnpatchWithLock()
 	for i := range mem {
-		if mem[i] != before[i] && (i < phOff || i >= phOff+phLen+1) && !(i >= flagOff && i < flagOff+8) {
+		if mem[i] != before[i] && (i < phOff || i >= phOff+phExtent) && !(i >= flagOff && i < flagOff+8) {
 			rep.Violate("C03/not-restored", fmt.Sprintf("synthetic shape %q: byte at mapping offset %d differs after unpatch", sh.name, i), c)
 			break
 		}
